@@ -21,6 +21,10 @@ import (
 type c02Params struct {
 	Strategy string
 	N        int
+	// Features: the other features are switched on as well - active health checks (the loop
+	// runs, its probes are answered well), circuit breaker and rate limiter with thresholds no
+	// history reaches. Failover is the same statement whatever else is enabled
+	Features bool `json:",omitempty"`
 }
 
 const c02Window = 10 * time.Second
@@ -285,10 +289,19 @@ func (in *c02Inst) Fingerprint() string {
 func c02Spec(p c02Params, depth int) vh.HSpec {
 	ev := c02Events(p.N)
 	return vh.HSpec{
-		Name: fmt.Sprintf("failover-%s-n%d", p.Strategy, p.N), KeyPrefix: "C02", Events: ev, Depth: depth, Params: p,
+		Name: fmt.Sprintf("failover-%s-n%d%s", p.Strategy, p.N, map[bool]string{true: "-every-feature-on"}[p.Features]), KeyPrefix: "C02", Events: ev, Depth: depth, Params: p,
 		New: func(s *vrt.Sched) vh.HInstance {
 			w := []int{3, 1, 2, 1, 1, 1}
-			k := newKit(s, kitOpts{Strategy: p.Strategy, N: p.N, Weights: w[:p.N], PassiveThr: 1, Window: 10})
+			o := kitOpts{Strategy: p.Strategy, N: p.N, Weights: w[:p.N], PassiveThr: 1, Window: 10}
+			if p.Features {
+				o.Active = true
+				o.Breaker = &config.CircuitBreakerConfig{Enabled: true, MaxRequests: 1, IntervalSeconds: 5, TimeoutSeconds: 3, FailureThreshold: 1000000, SuccessThreshold: 1}
+				o.Limiter = &config.RateLimitConfig{Enabled: true, MaxTokens: 1000000, RefillRate: 1}
+			}
+			k := newKit(s, o)
+			if p.Features {
+				s.Settle() // the initial probe round
+			}
 			in := &c02Inst{s: s, k: k, p: p, events: ev}
 			for i := 0; i < p.N; i++ {
 				in.mon = append(in.mon, &c02Backend{name: fmt.Sprintf("b%d", i), listed: true, until: -1})
@@ -327,7 +340,16 @@ func TestVerifC02(t *testing.T) {
 				if vres.Thorough() && n >= 4 {
 					d = depth - (n - 3) // the alphabet grows with n
 				}
-				vh.RunH(r, "TestVerifC02", c02Spec(c02Params{strat, n}, d))
+				vh.RunH(r, "TestVerifC02", c02Spec(c02Params{Strategy: strat, N: n}, d))
+			}
+			i++
+		}
+	}
+	// the same search with every other feature switched on (pools of 1..2 in the quick tier)
+	for _, strat := range allStrategies {
+		for n := 1; n <= 2+map[bool]int{true: 1}[vres.Thorough()]; n++ {
+			if vh.MyShard(i) {
+				vh.RunH(r, "TestVerifC02", c02Spec(c02Params{Strategy: strat, N: n, Features: true}, depth))
 			}
 			i++
 		}
@@ -339,7 +361,7 @@ func TestVerifC02(t *testing.T) {
 	for _, strat := range allStrategies {
 		for n := 1; n <= 2+map[bool]int{true: 1}[vres.Thorough()]; n++ {
 			if vh.MyShard(i) {
-				sp := c02Spec(c02Params{strat, n}, depth)
+				sp := c02Spec(c02Params{Strategy: strat, N: n}, depth)
 				sp.Name += "-selected-at-run-time"
 				vh.RunH(r, "TestVerifC02", sp)
 			}
